@@ -179,6 +179,43 @@ def _shape_branch(stmts, default_asg, line):
     return prefix, asg
 
 
+def prefixed_override(repo):
+    """compile_require: what follows `prefix, assignments = assignment_shape(module, rest)`:
+    either `if prefix: assignments = "ALL"|"EXPORTS"` (a prefixed require overrides the shape's assignments) or nothing"""
+    tree, _ = parse_py(repo, RESULT)
+    fn = top_func(tree, "compile_require", RESULT)
+    loops = [s for s in fn.body if isinstance(s, ast.For)]
+    if len(loops) != 1:
+        raise ShapeChanged("%s:%d: compile_require: expected one `for entry in entries` loop" % (RESULT, fn.lineno))
+    body = loops[0].body
+    idx = [k for k, s in enumerate(body) if ast.unparse(s) == "(prefix, assignments) = assignment_shape(module, rest)"
+           or ast.unparse(s) == "prefix, assignments = assignment_shape(module, rest)"]
+    if len(idx) != 1:
+        raise ShapeChanged("%s:%d: compile_require no longer calls assignment_shape(module, rest) once" % (RESULT, fn.lineno))
+    nxt = body[idx[0] + 1]
+    if ast.unparse(nxt) == "module_name = module_name_str(module)":
+        override = "None"
+    elif isinstance(nxt, ast.If) and ast.unparse(nxt.test) == "prefix" and not nxt.orelse and len(nxt.body) == 1 \
+            and ast.unparse(nxt.body[0]) in ("assignments = 'ALL'", "assignments = 'EXPORTS'") \
+            and ast.unparse(body[idx[0] + 2]) == "module_name = module_name_str(module)":
+        override = "(Some AkAll)" if "ALL" in ast.unparse(nxt.body[0]) else "(Some AkExports)"
+    else:
+        raise ShapeChanged("%s:%d: unrecognised statement after assignment_shape(...) in compile_require: %s"
+                           % (RESULT, nxt.lineno, ast.unparse(nxt)[:70]))
+    # between there and the require calls, prefix/assignments must not be reassigned
+    for s in body[idx[0] + 2:]:
+        for n in ast.walk(s):
+            if isinstance(n, ast.Assign) and any(ast.unparse(t) in ("prefix", "assignments") for t in n.targets) and n is not nxt \
+                    and not (isinstance(nxt, ast.If) and n in nxt.body):
+                raise ShapeChanged("%s:%d: compile_require reassigns prefix/assignments" % (RESULT, n.lineno))
+    src = ast.unparse(fn)
+    for piece in ("require(module_name, compiler.local_state_stack[-1]['macros'], assignments=assignments, prefix=prefix, compiler=compiler)",
+                  "require(module_name, compiler.module, assignments=assignments, prefix=prefix, compiler=compiler)"):
+        if piece not in src:
+            raise ShapeChanged("%s:%d: compile_require no longer calls %s" % (RESULT, fn.lineno, piece[:60]))
+    return override
+
+
 def _cstmts(stmts, rel):
     out = []
     for s in stmts:
@@ -232,6 +269,7 @@ def translate(repo):
     chain = lookup_chain(repo)
     rows = shape_table(repo)
     term, threshold = local_state(repo)
+    override = prefixed_override(repo)
     out = "(* GENERATED by translator/macro_lookup.py from %s, %s, %s -- do not edit; regenerated on every check run *)\n" \
           % (MACROS, RESULT, COMPILER)
     out += "From HyV Require Import Base.Text MacroNS.LookupSyntax.\n"
@@ -240,6 +278,8 @@ def translate(repo):
     out += "(* assignment_shape: per shape of a require entry, where the prefix comes from and what is assigned *)\n"
     out += "Definition shape_table : list (shape_tag * (prefix_kind * assign_kind)) :=\n  [%s].\n" \
            % "; ".join("(%s, (%s, %s))" % (t, p, a) for t, (p, a) in rows)
+    out += "(* compile_require: `if prefix: assignments = ...` after assignment_shape (None: no such statement) *)\n"
+    out += "Definition prefixed_override : option assign_kind := %s.\n" % override
     out += "(* HyASTCompiler.local_state, a @contextmanager; new_local_state pushes dict(macros={}) *)\n"
     out += "Definition local_state_term : list cstmt := [%s].\n" % "; ".join(term)
     out += "(* is_in_local_state: len(self.local_state_stack) > this *)\n"
